@@ -116,6 +116,10 @@ Section AnyPlan.
     intros st HI. pose proof (insert_self_range_ok p (size st) a b st HI) as H. exact H.
   Qed.
 
+  (* an operation that leaves the object as it is *)
+  Lemma unchanged_ok (f : fv -> fv * outcome) : (forall st, fst (f st) = st /\ snd (f st) <> OutOfStorage) -> StepOK (GInv Q) f.
+  Proof. intros Hf st HI. destruct (Hf st) as (A & B). rewrite A. auto. Qed.
+
   (* an operation that only refuses *)
   Lemma refuse_ok (f : fv -> fv * outcome) : (forall st, f st = (st, Raised)) -> StepOK (GInv Q) f.
   Proof. intros Hf st HI. rewrite Hf. simpl. split; auto. discriminate. Qed.
@@ -216,6 +220,10 @@ Section AnyPlan.
       destruct (make_from_obj p c src) as [st o] eqn:E.
       apply (make_from_obj_good Q) in E; [|eapply PAll_pget; eauto]. destruct E as (A & _ & B & _).
       eapply construct_ok in H; eauto.
+    - eapply on_obj_ok in H; eauto. apply unchanged_ok. intros st. unfold emplace_back_ctor_throws.
+      destruct (cap st <=? size st); simpl; split; auto; discriminate.
+    - eapply on_obj_ok in H; eauto. apply unchanged_ok. intros st. unfold emplace_ctor_throws.
+      destruct (cap st <=? size st); [|destruct (size st <? pos)]; simpl; split; auto; discriminate.
   Qed.
 End AnyPlan.
 
@@ -438,6 +446,19 @@ Proof.
   destruct E as (-> & E2 & E3). unfold absobj. now rewrite E2, E3.
 Qed.
 
+Lemma ctor_throws_back_I : Istep emplace_back_ctor_throws (fun a => (a, if fst a <=? length (snd a) then Raised else Faulted)).
+Proof.
+  intros st HI. unfold emplace_back_ctor_throws, absobj. simpl. rewrite (abs_length filled) by auto.
+  destruct (cap st <=? size st); simpl; auto.
+Qed.
+
+Lemma ctor_throws_I pos : Istep (emplace_ctor_throws pos)
+  (fun a => (a, if fst a <=? length (snd a) then Raised else if length (snd a) <? pos then Raised else Faulted)).
+Proof.
+  intros st HI. unfold emplace_ctor_throws, absobj. simpl. rewrite (abs_length filled) by auto.
+  destruct (cap st <=? size st); [|destruct (size st <? pos)]; simpl; auto.
+Qed.
+
 Lemma refuse_I (f : fv -> fv * outcome) : (forall st, f st = (st, Raised)) -> Istep f (fun a => (a, Raised)).
 Proof. intros Hf st HI. rewrite Hf. simpl. auto. Qed.
 
@@ -551,6 +572,8 @@ Proof.
       * destruct E as (-> & E2 & E3). apply construct_refines in H; auto. simpl in H.
         unfold absobj in H. now rewrite E2, E3 in H.
       * subst o. apply construct_refines in H; auto.
+  - eapply on_obj_refines in H; eauto. apply ctor_throws_back_I.
+  - eapply on_obj_refines in H; eauto. apply ctor_throws_I.
 Qed.
 
 (* ---------- the strong invariant under fault plans: lost only by a throw inside positional emplace / erase ---------- *)
@@ -681,6 +704,9 @@ Proof.
   - eapply (on_obj_cap WInv) in H; eauto. intros s _. reflexivity.
   - destruct (i =? j); [inversion H; subst; auto|]. destruct (pget P j); [|inversion H; subst; auto].
     apply Same. eapply construct_other; eauto; congruence.
+  - eapply (on_obj_cap WInv) in H; eauto. intros s _. unfold emplace_back_ctor_throws. now destruct (cap s <=? size s).
+  - eapply (on_obj_cap WInv) in H; eauto. intros s _. unfold emplace_ctor_throws.
+    destruct (cap s <=? size s); [|destruct (size s <? pos)]; reflexivity.
 Qed.
 
 (* ---------- whole histories ---------- *)
